@@ -206,6 +206,27 @@ def row_cells(row):
     return cells
 
 
+def words_reliable(row):
+    """rows whose word boundaries are compared with the screen: no backspace, and every mid-row code changes the italic
+    state (pycaption leaves out the blank cell of a mid-row code that changes nothing, and an erased mid-row code keeps its
+    effect, and no blank is written for a mid-row code in front of punctuation -- those rows are judged on their visible
+    characters only)"""
+    italic = row["italic_pac"]
+    items = row["items"]
+    for k, it in enumerate(items):
+        if it[0] == "bs":
+            return False
+        if it[0] == "mid":
+            if it[1] == italic:
+                return False
+            italic = it[1]
+            # pycaption deliberately writes no blank for a mid-row code in front of . ! ? , (pinned by its tests)
+            nxt = items[k + 1] if k + 1 < len(items) else None
+            if nxt is None or nxt[0] != "c" or nxt[1] in ".!?, ":
+                return False
+    return True
+
+
 def mid_cell_erased_late(row):
     """a backspace erases the cell of a mid-row code after other characters had been written behind that cell (and were
     erased first)"""
@@ -342,11 +363,13 @@ def spec_popon_screen(p):
         groups = []
         for row in cap["rows"]:
             cells = nonblank(row_cells(row))
+            words = "".join(ch for ch, _ in row_cells(row)).split()      # blank cells between characters separate words
             if groups and row["row"] == groups[-1]["last_row"] + 1:
                 groups[-1]["lines"].append(cells); groups[-1]["last_row"] = row["row"]; groups[-1]["late_erase"] |= mid_cell_erased_late(row)
+                groups[-1]["words"].append(words); groups[-1]["words_reliable"] &= words_reliable(row)
             else:
                 groups.append({"origin": (row["row"], row["indent"] + row["tab"]), "lines": [cells], "last_row": row["row"],
-                               "late_erase": mid_cell_erased_late(row)})
+                               "late_erase": mid_cell_erased_late(row), "words": [words], "words_reliable": words_reliable(row)})
         out.append(groups)
     return out
 
@@ -426,7 +449,7 @@ def gen_rollup(rng, paint=False, rich=False):
     doubled = rng.random() < 0.5
     depth = rng.choice(["RU2", "RU3", "RU4"])
     ru_once = rng.random() < 0.4          # the roll-up command only once; later rows by carriage return + preamble
-    frame = rng.choice([0, 30, 900])
+    frame = rng.choice([0, 30, 900, 3600 * 30 - 150, 3600 * 30 - 40, 2 * 3600 * 30 + 5])      # also across a full hour
     lines = ["Scenarist_SCC V1.0", ""]
     rows = []
     rollup_rows(rng, lines, rows, frame, df, doubled, paint, depth, ru_once, rng.randint(1, 8), rich=rich)
@@ -437,7 +460,7 @@ def gen_mixed(rng, rich=False):
     """a stream that changes mode: 2-4 stretches of paint-on / roll-up rows"""
     df = rng.random() < 0.5
     doubled = rng.random() < 0.5
-    frame = rng.choice([0, 30, 900])
+    frame = rng.choice([0, 30, 900, 3600 * 30 - 150, 3600 * 30 - 40])
     lines = ["Scenarist_SCC V1.0", ""]
     rows = []
     mode = rng.random() < 0.5
@@ -445,6 +468,40 @@ def gen_mixed(rng, rich=False):
         frame = rollup_rows(rng, lines, rows, frame, df, doubled, mode, rng.choice(["RU2", "RU3", "RU4"]), False, rng.randint(1, 3), rich=rich)
         mode = not mode
     return {"mode": "mixed", "text": "\n".join(lines) + "\n", "rows": rows, "df": df, "doubled": doubled, "offset": 0, "ru_once": False}
+
+
+def styled_adjacent_rows_program(rng, doubled=False):
+    """one pop-on caption of 2-4 ADJACENT rows; rows carry an italic stretch that is switched off (or on) by a mid-row code
+    in the middle of the row, with and without blanks around it, and some rows begin with blank cells"""
+    n = rng.randint(2, 4)
+    start = rng.randint(1, 16 - n)
+    rows = []
+    for k in range(n):
+        w1 = rng.choice(["Hi", "AB", "one", "x"]); w2 = rng.choice(["yo", "CD", "two", "z9"])
+        shape = rng.randrange(5)
+        pac_it = rng.random() < 0.5
+        if shape == 0:      # italic word, mid-row plain, word
+            items = ([] if pac_it else [("mid", True)]) + [("c", c) for c in w1] + [("mid", False)] + [("c", c) for c in w2]
+        elif shape == 1:    # word, mid-row italic, word
+            pac_it = False
+            items = [("c", c) for c in w1] + [("mid", True)] + [("c", c) for c in w2]
+        elif shape == 2:    # blank cells first
+            pac_it = False
+            items = [("c", " ")] * rng.randint(1, 2) + [("c", c) for c in w1 + " " + w2]
+        elif shape == 3:    # italic word, blank, mid-row plain, word
+            items = ([] if pac_it else [("mid", True)]) + [("c", c) for c in w1 + " "] + [("mid", False)] + [("c", c) for c in w2]
+        else:
+            pac_it = False
+            items = [("c", c) for c in w1 + " " + w2]
+        rows.append({"row": start + k, "indent": 0 if pac_it else rng.choice([0, 4]), "tab": 0, "italic_pac": pac_it, "items": items})
+    words = [CMD["ENM"], CMD["RCL"]]
+    if doubled:
+        words = [w for w in words for _ in range(2)]
+    for r in rows:
+        words += row_words(r, doubled)
+    words += [CMD["EOC"]] * (2 if doubled else 1)
+    text = "Scenarist_SCC V1.0\n\n" + timecode(30, False) + "\t" + " ".join(words) + "\n\n" + timecode(300, False) + "\t" + CMD["EDM"] + "\n"
+    return {"mode": "pop", "text": text, "caps": [{"rows": rows}], "events": [], "df": False, "doubled": doubled, "offset": 0}
 
 
 def italic_rows_program(rng, doubled=False):
